@@ -204,30 +204,21 @@ theorem spanW_escText (s : Str) (b : Str) :
     simpa using this
   · simp
 
-theorem plainNsChar_iff {c : Char} (h : plainNsChar c = true) :
-    legalChar c = true ∧ c ≠ '"' ∧ c ≠ '<' ∧ c ≠ '&' := by
-  simpa [plainNsChar, and_assoc] using h
-
-theorem unescStrictGo_plain (v : Str) (h : ∀ c ∈ v, plainNsChar c = true) : unescStrictGo 0 v = some v := by
+/-- a value made of characters the escaper copies is written unchanged (used for the constant namespaces) -/
+theorem escAttr_plain (v : Str) (h : ∀ c ∈ v, plainAttrChar c = true) : escAttr v = v := by
   induction v with
-  | nil => simp [unescStrictGo]
+  | nil => rfl
   | cons c v ih =>
-    obtain ⟨h1, _, h3, h4⟩ := plainNsChar_iff (h c (by simp))
-    have ih' := ih (fun x hx => h x (by simp [hx]))
-    simp [unescStrictGo, h3, h4, legalChar_not_nonChar h1, ih']
-
-theorem spanW_plain (v : Str) (h : ∀ c ∈ v, plainNsChar c = true) (b : Str) :
-    (v ++ '"' :: b).spanW (fun x => x != '"') = (v, '"' :: b) := by
-  apply span_append_stop
-  · intro x hx
-    have := (plainNsChar_iff (h x hx)).2.1
-    simpa using this
-  · simp
+    have hc := h c (by simp)
+    simp only [plainAttrChar, Bool.and_eq_true, bne_iff_ne, ne_eq] at hc
+    obtain ⟨⟨⟨⟨⟨⟨⟨hl, h1⟩, h2⟩, h3⟩, h4⟩, h5⟩, h6⟩, h7⟩ := hc
+    rw [escAttr_cons, ih (fun x hx => h x (by simp [hx]))]
+    simp [escChar, h1, h2, h3, h4, h5, h6, h7, hl]
 
 /-! ### attributes -/
 
 theorem parseAttrs_render (as : List (Str × Str)) (hn : ∀ kv ∈ as, okName kv.1 = true)
-    (hns : nsAttrsOK as = true) (rest : Str) (hrest : ∀ c r, rest = c :: r → c ≠ ' ') (f : Nat) (hf : as.length < f) :
+    (rest : Str) (hrest : ∀ c r, rest = c :: r → c ≠ ' ') (f : Nat) (hf : as.length < f) :
     parseAttrs f (renderAttrs as ++ rest) =
       some (as.map (fun kv => (kv.1, kv.2.filter legalChar)), rest) := by
   induction as generalizing f with
@@ -242,55 +233,41 @@ theorem parseAttrs_render (as : List (Str × Str)) (hn : ∀ kv ∈ as, okName k
     obtain ⟨k, v⟩ := kv
     obtain ⟨f, rfl⟩ : ∃ g, f = g + 1 := ⟨f - 1, by simp at hf; omega⟩
     have hk : okName k = true := hn (k, v) (by simp)
-    simp only [nsAttrsOK, List.all_cons, Bool.and_eq_true] at hns
-    have ih' := ih (fun kv h => hn kv (by simp [h])) (by simpa [nsAttrsOK] using hns.2) f (by simp at hf; omega)
-    by_cases hd : isNsDecl k = true
-    · have hv : ∀ c ∈ v, plainNsChar c = true := by simpa [hd] using hns.1
-      have hl : v.filter legalChar = v :=
-        filter_legal_of_all fun c hc => (plainNsChar_iff (hv c hc)).1
-      have e : renderAttrs ((k, v) :: as) ++ rest =
-          ' ' :: (k ++ '=' :: '"' :: (v ++ '"' :: (renderAttrs as ++ rest))) := by
-        simp [renderAttrs, hd, List.append_assoc]
-      rw [e]
-      simp only [parseAttrs, if_true]
-      rw [spanW_name k hk '=' (by decide)]
-      simp only [hk, if_true, and_self]
-      rw [spanW_plain v hv]
-      simp [unescStrict, unescStrictGo_plain v hv, ih', hl]
-    · have e : renderAttrs ((k, v) :: as) ++ rest =
-          ' ' :: (k ++ '=' :: '"' :: (escAttr v ++ '"' :: (renderAttrs as ++ rest))) := by
-        simp [renderAttrs, hd, List.append_assoc]
-      rw [e]
-      simp only [parseAttrs, if_true]
-      rw [spanW_name k hk '=' (by decide)]
-      simp only [hk, if_true, and_self]
-      rw [spanW_escAttr, unescStrict_escAttr]
-      simp [ih']
+    have ih' := ih (fun kv h => hn kv (by simp [h])) f (by simp at hf; omega)
+    have e : renderAttrs ((k, v) :: as) ++ rest =
+        ' ' :: (k ++ '=' :: '"' :: (escAttr v ++ '"' :: (renderAttrs as ++ rest))) := by
+      simp [renderAttrs, List.append_assoc]
+    rw [e]
+    simp only [parseAttrs, if_true]
+    rw [spanW_name k hk '=' (by decide)]
+    simp only [hk, if_true, and_self]
+    rw [spanW_escAttr, unescStrict_escAttr]
+    simp [ih']
 
 theorem length_renderAttrs (as : List (Str × Str)) : as.length ≤ (renderAttrs as).length := by
   induction as with
   | nil => simp
-  | cons kv as ih => obtain ⟨k, v⟩ := kv; simp only [renderAttrs]; split <;> (simp; omega)
+  | cons kv as ih => obtain ⟨k, v⟩ := kv; simp [renderAttrs]; omega
 
 /-- what follows an element name in the writer's output never continues the name -/
 theorem renderAttrs_append_head (as : List (Str × Str)) (c : Char) (b : Str) (hc : isNameChar c = false) :
     ∃ c' b', renderAttrs as ++ c :: b = c' :: b' ∧ isNameChar c' = false := by
   cases as with
   | nil => exact ⟨c, b, rfl, hc⟩
-  | cons kv as => obtain ⟨k, v⟩ := kv; exact ⟨' ', k ++ '=' :: '"' :: (if isNsDecl k then v else escAttr v) ++ '"' :: renderAttrs as ++ c :: b, by simp [renderAttrs], by decide⟩
+  | cons kv as => obtain ⟨k, v⟩ := kv; exact ⟨' ', k ++ '=' :: '"' :: escAttr v ++ '"' :: renderAttrs as ++ c :: b, by simp [renderAttrs], by decide⟩
 
 /-! ### elements -/
 
 /-- the start tag of a childless element -/
 theorem parseElem_empty (n : Str) (as : List (Str × Str)) (hn : okName n = true)
-    (has : ∀ kv ∈ as, okName kv.1 = true) (hns : nsAttrsOK as = true) (rest : Str) (f : Nat) :
+    (has : ∀ kv ∈ as, okName kv.1 = true) (rest : Str) (f : Nat) :
     parseElem (f + 1) ('<' :: (n ++ (renderAttrs as ++ '/' :: '>' :: rest))) =
       some (.elem n (as.map fun kv => (kv.1, kv.2.filter legalChar)) [], rest) := by
   obtain ⟨c', b', e1, hc'⟩ := renderAttrs_append_head as '/' ('>' :: rest) (by decide)
   have e2 : (n ++ (renderAttrs as ++ '/' :: '>' :: rest)).spanW isNameChar
       = (n, renderAttrs as ++ '/' :: '>' :: rest) := by
     rw [e1]; exact spanW_name n hn c' hc' b'
-  have e3 := parseAttrs_render as has hns ('/' :: '>' :: rest) (by intro c r h; cases h; decide)
+  have e3 := parseAttrs_render as has ('/' :: '>' :: rest) (by intro c r h; cases h; decide)
     (n ++ (renderAttrs as ++ '/' :: '>' :: rest)).length
     (by have := length_renderAttrs as; simp; omega)
   simp only [parseElem, if_true]
@@ -302,7 +279,7 @@ theorem parseElem_empty (n : Str) (as : List (Str × Str)) (hn : okName n = true
 /-- the start tag of an element with content: the parser goes on with the content and then
 checks the end tag -/
 theorem parseElem_open (n : Str) (as : List (Str × Str)) (hn : okName n = true)
-    (has : ∀ kv ∈ as, okName kv.1 = true) (hns : nsAttrsOK as = true) (inner : Str) (f : Nat) :
+    (has : ∀ kv ∈ as, okName kv.1 = true) (inner : Str) (f : Nat) :
     parseElem (f + 1) ('<' :: (n ++ (renderAttrs as ++ '>' :: inner))) =
       match parseKids f inner with
       | some q =>
@@ -317,7 +294,7 @@ theorem parseElem_open (n : Str) (as : List (Str × Str)) (hn : okName n = true)
   have e2 : (n ++ (renderAttrs as ++ '>' :: inner)).spanW isNameChar
       = (n, renderAttrs as ++ '>' :: inner) := by
     rw [e1]; exact spanW_name n hn c' hc' b'
-  have e3 := parseAttrs_render as has hns ('>' :: inner) (by intro c r h; cases h; decide)
+  have e3 := parseAttrs_render as has ('>' :: inner) (by intro c r h; cases h; decide)
     (n ++ (renderAttrs as ++ '>' :: inner)).length
     (by have := length_renderAttrs as; simp; omega)
   simp only [parseElem, if_true]
@@ -413,35 +390,30 @@ theorem namesOK_elem {n : Str} {as : List (Str × Str)} {ks : List Node} (h : na
   simp only [namesOK, Bool.and_eq_true, List.all_eq_true] at h
   exact ⟨h.1.1, h.1.2, h.2⟩
 
-theorem nsValuesOK_elem {n : Str} {as : List (Str × Str)} {ks : List Node} (h : nsValuesOK (.elem n as ks) = true) :
-    nsAttrsOK as = true ∧ nsValuesOKList ks = true := by
-  simpa [nsValuesOK] using h
-
 mutual
   theorem parseElem_render (n : Str) (as : List (Str × Str)) (ks : List Node)
-      (h : namesOK (.elem n as ks) = true) (hv : nsValuesOK (.elem n as ks) = true) (rest : Str) (f : Nat)
+      (h : namesOK (.elem n as ks) = true) (rest : Str) (f : Nat)
       (hf : (render (.elem n as ks)).length ≤ f) :
       parseElem f (render (.elem n as ks) ++ rest) = some (view (.elem n as ks), rest) := by
     obtain ⟨hn, has, hks⟩ := namesOK_elem h
-    obtain ⟨hns, hvs⟩ := nsValuesOK_elem hv
     cases ks with
     | nil =>
       obtain ⟨f, rfl⟩ : ∃ g, f = g + 1 := ⟨f - 1, by rw [render_elem_nil] at hf; simp at hf; omega⟩
       rw [render_elem_nil, view_elem]
-      have := parseElem_empty n as hn has hns rest f
+      have := parseElem_empty n as hn has rest f
       simpa [viewKids, flushText_nil, List.append_assoc] using this
     | cons k ks =>
       rw [render_elem_cons] at hf ⊢
       obtain ⟨f, rfl⟩ : ∃ g, f = g + 1 := ⟨f - 1, by simp at hf; omega⟩
-      have hk := parseKids_render (k :: ks) hks hvs [] (n ++ '>' :: rest) f (by simp at hf ⊢; omega)
+      have hk := parseKids_render (k :: ks) hks [] (n ++ '>' :: rest) f (by simp at hf ⊢; omega)
       have e : ('<' :: (n ++ (renderAttrs as ++ '>' :: (renderList (k :: ks) ++ '<' :: '/' :: (n ++ ['>']))))) ++ rest
           = '<' :: (n ++ (renderAttrs as ++ '>' :: (escText [] ++ (renderList (k :: ks) ++ '<' :: '/' :: (n ++ '>' :: rest))))) := by
         simp [List.append_assoc]
-      rw [e, parseElem_open n as hn has hns, hk, view_elem]
+      rw [e, parseElem_open n as hn has, hk, view_elem]
       simp [spanW_name n hn '>' (by decide) rest]
   termination_by 2 * sizeOf ks + 1
   decreasing_by all_goals (subst_vars; simp_wf)
-  theorem parseKids_render (ks : List Node) (h : namesOKList ks = true) (hv : nsValuesOKList ks = true)
+  theorem parseKids_render (ks : List Node) (h : namesOKList ks = true)
       (p rest : Str) (f : Nat)
       (hf : (escText p).length + (renderList ks).length + 1 ≤ f) :
       parseKids f (escText p ++ (renderList ks ++ '<' :: '/' :: rest)) =
@@ -458,14 +430,13 @@ mutual
         rw [parseKids_text p hne, parseKids_close]; simp
     | cons k ks =>
       simp only [namesOKList, Bool.and_eq_true] at h
-      simp only [nsValuesOKList, Bool.and_eq_true] at hv
       cases k with
       | text s =>
         have e : escText p ++ (renderList (Node.text s :: ks) ++ '<' :: '/' :: rest)
             = escText (p ++ s) ++ (renderList ks ++ '<' :: '/' :: rest) := by
           simp [renderList_cons, render_text, escText_append, List.append_assoc]
         rw [e]
-        have := parseKids_render ks h.2 hv.2 (p ++ s) rest f (by
+        have := parseKids_render ks h.2 (p ++ s) rest f (by
           simp [renderList_cons, render_text, escText_append] at hf ⊢; omega)
         simpa [viewKids, List.filter_append] using this
       | elem n as ks' =>
@@ -478,8 +449,8 @@ mutual
             parseKids (g + 1) (render (.elem (d :: r) as ks') ++ (renderList ks ++ '<' :: '/' :: rest))
               = some (view (.elem (d :: r) as ks') :: viewKids [] ks, rest) := by
           intro g hg
-          have h1 := parseElem_render (d :: r) as ks' h.1 hv.1 (renderList ks ++ '<' :: '/' :: rest) g (by omega)
-          have h2 := parseKids_render ks h.2 hv.2 [] rest g (by simp; omega)
+          have h1 := parseElem_render (d :: r) as ks' h.1 (renderList ks ++ '<' :: '/' :: rest) g (by omega)
+          have h2 := parseKids_render ks h.2 [] rest g (by simp; omega)
           obtain ⟨s2, es⟩ : ∃ s2, render (.elem (d :: r) as ks') ++ (renderList ks ++ '<' :: '/' :: rest) = '<' :: d :: s2 := by
             cases ks' <;> simp [render]
           rw [es] at h1 ⊢
@@ -512,9 +483,9 @@ end
 
 /-- character level, whole document: the parser reads back what the writer wrote -/
 theorem parse_render_view (n : Str) (as : List (Str × Str)) (ks : List Node)
-    (h : namesOK (.elem n as ks) = true) (hv : nsValuesOK (.elem n as ks) = true) :
+    (h : namesOK (.elem n as ks) = true) :
     parse (render (.elem n as ks)) = some (view (.elem n as ks)) := by
-  have := parseElem_render n as ks h hv [] ((render (.elem n as ks)).length + 1) (by omega)
+  have := parseElem_render n as ks h [] ((render (.elem n as ks)).length + 1) (by omega)
   rw [List.append_nil] at this
   simp [parse, this]
 
@@ -527,7 +498,7 @@ mutual
     | elem n as ks =>
       simp only [wellFormed, Bool.and_eq_true, List.all_eq_true] at h
       simp only [namesOK, Bool.and_eq_true, List.all_eq_true]
-      exact ⟨⟨h.1.1.1.1, fun kv hkv => (h.1.1.1.2 kv hkv).1⟩, namesOKList_of_wellFormedList ks h.1.2⟩
+      exact ⟨⟨h.1.1.1, fun kv hkv => (h.1.1.2 kv hkv).1⟩, namesOKList_of_wellFormedList ks h.1.2⟩
   theorem namesOKList_of_wellFormedList (ks : List Node) (h : wellFormedList ks = true) :
       namesOKList ks = true := by
     cases ks with
@@ -536,24 +507,6 @@ mutual
       simp only [wellFormedList, Bool.and_eq_true] at h
       simp only [namesOKList, Bool.and_eq_true]
       exact ⟨namesOK_of_wellFormed k h.1, namesOKList_of_wellFormedList ks h.2⟩
-end
-
-mutual
-  theorem nsValuesOK_of_wellFormed (t : Node) (h : wellFormed t = true) : nsValuesOK t = true := by
-    cases t with
-    | text s => rfl
-    | elem n as ks =>
-      simp only [wellFormed, Bool.and_eq_true] at h
-      simp only [nsValuesOK, Bool.and_eq_true]
-      exact ⟨h.1.1.2, nsValuesOKList_of_wellFormedList ks h.1.2⟩
-  theorem nsValuesOKList_of_wellFormedList (ks : List Node) (h : wellFormedList ks = true) :
-      nsValuesOKList ks = true := by
-    cases ks with
-    | nil => rfl
-    | cons k ks =>
-      simp only [wellFormedList, Bool.and_eq_true] at h
-      simp only [nsValuesOKList, Bool.and_eq_true]
-      exact ⟨nsValuesOK_of_wellFormed k h.1, nsValuesOKList_of_wellFormedList ks h.2⟩
 end
 
 mutual
@@ -568,7 +521,7 @@ mutual
         conv => rhs; rw [← List.map_id as]
         apply List.map_congr_left
         intro kv hkv
-        have := (h.1.1.1.2 kv hkv).2
+        have := (h.1.1.2 kv hkv).2
         simp [filter_legal_of_all this]
       rw [view_elem, e1, viewKids_of_wellFormed ks h.1.2 h.2]
   theorem viewKids_of_wellFormed (ks : List Node) (h : wellFormedList ks = true)
